@@ -1,6 +1,4 @@
 #include "specdefs.h"
-size_t ghost_i;            /* arbitrary position, never assigned */
-long ghost_e1, ghost_e2;   /* names of the two masked components at position ghost_i (tied by an ENFORCE requires) */
 /* assumed contract on the (separately treated, group C01) card masking: the output card is the
  * component-wise re-masking of the input card with the secret's exponent */
 void SchindelhauerTMCG__TMCG_MaskCard(SchindelhauerTMCG *self, VTMF_Card *c, VTMF_Card *cc, VTMF_CardSecret *cs,
@@ -14,7 +12,6 @@ void SchindelhauerTMCG__TMCG_MaskCard(SchindelhauerTMCG *self, VTMF_Card *c, VTM
  * TRUSTED, stated from ISO C++: the first position whose .first equals index, else size().  The result is
  * additionally named by the never-assigned ghost array ghost_pos[] (Skolem function for "index occurs at
  * some position"); sound while the container is unchanged between the calls of one loop. */
-size_t ghost_pos[MAXN];
 size_t TMCG_StackSecret_VTMF_CardSecret__find_position(TMCG_StackSecret_VTMF_CardSecret *self, size_t index)
 __CPROVER_requires(__CPROVER_r_ok(self, sizeof(*self)) && self->stack.size <= MAXN && index < MAXN)
 __CPROVER_assigns()
